@@ -83,12 +83,16 @@ def check_case(ctx, case):
     edges = mag_edges(case["mags"])
     mags = numpy.array(edges)
     bound = case["mags"]["bound"]
-    o = call(M.build, mags if bound else (mags if case["region"]["kind"] == "quad" and False else None))
+    other = case["mags"].get("region_grid")   # region bound to a *different* grid while mag_bins is passed explicitly
+    if other:
+        o = call(M.build, numpy.array(exact.decimal_grid(other["start"], other["step"], other["n"])))
+    else:
+        o = call(M.build, mags if bound else None)
     if not o.ok:
         ctx.unexpected(o, "build_region")
         return
     region = o.value
-    if not bound:
+    if not bound and not other:
         # region without its own magnitudes: mag_bins must be passed explicitly
         region.magnitudes = None
     ev = case["events"]
@@ -257,6 +261,9 @@ def cases(draw, max_events=40):
     mc = {"start": draw(st.sampled_from(["4.95", "5.95", "2.5", "3", "0", "-1", "4.0", "2.45"])),
           "step": draw(st.sampled_from(["0.1", "0.2", "0.5", "1", "0.25", "0.3"])), "n": draw(st.integers(1, 8)),
           "bound": draw(st.booleans())}
+    if not mc["bound"] and draw(st.booleans()):
+        mc["region_grid"] = {"start": draw(st.sampled_from(["4.95", "5.95", "2.5", "3", "0", "4.0"])), "step": draw(st.sampled_from(["0.1", "0.5", "1"])),
+                             "n": draw(st.integers(1, 8))}
     edges = mag_edges(mc)
     hf = float(mc["step"])
     if rc["kind"] == "cart":
@@ -300,7 +307,16 @@ def cases(draw, max_events=40):
                         i, j = draw(st.sampled_from(holes))
                         base[0], base[1] = L.ex[i] + L.fdh / 2, L.ey[j] + L.fdh / 2
                     else:
-                        base[0] = L.ex[-1] + draw(st.sampled_from([1.5, 7])) * L.fdh if draw(st.booleans()) else L.ex[0] - 1.5 * L.fdh
+                        side = draw(st.sampled_from(["east", "west", "north", "south", "north", "south", "corner"]))
+                        far_ = draw(st.sampled_from([0.5, 1.5, 7]))
+                        if side in ("east", "corner"):
+                            base[0] = L.ex[-1] + L.fdh + far_ * L.fdh
+                        if side == "west":
+                            base[0] = L.ex[0] - far_ * L.fdh
+                        if side in ("north", "corner"):
+                            base[1] = L.ey[-1] + L.fdh + far_ * L.fdh     # outside in latitude only: longitude stays inside a column
+                        if side == "south":
+                            base[1] = L.ey[0] - far_ * L.fdh
                 else:
                     base[1] = draw(st.sampled_from([86.0, -86.0, 89.5]))
             p = draw(st.integers(0, len(ev)))
@@ -313,6 +329,6 @@ def cases(draw, max_events=40):
 def run(ctx):
     def fn(c, case):
         check_case(c, case)
-        c.record(case, bool(nontrivial(case)), "%s:%s" % (case["family"], case["region"]["kind"]))
+        c.record(case, bool(nontrivial(case)), "%s:%s%s" % (case["family"], case["region"]["kind"], ":explicit_over_bound" if case["mags"].get("region_grid") else ""))
 
     ctx.drive(cases(max_events=ctx.n(40, 120)), ctx.n(600, 5000), fn=fn, salt=1)
